@@ -348,6 +348,8 @@ def text_mutations(g, m):
         hdr = '[Table-Form:%s]\n' % n
         body = t.split(hdr)[1].split('[')[0]
         out.append(('table_nonnumeric', t.replace(hdr + body, hdr + body.replace('1.0', 'one', 1))))
+        out.append(('table_nonfinite', t.replace(hdr + body, hdr + body.replace('1.0', g.choice(['inf', 'nan', '-inf']), 1))))          # fix d43073a
+        out.append(('table_without_name', t + '[Table-Form:]\nx : 0 1 2 3 4\ny : 2 1 0.5 0.25 0\n'))
         if 'xy :' in body: out.append(('table_xy_odd', t.replace(hdr + body, hdr + body.rstrip('\n') + ' 9.0\n')))
         else:
             out.append(('table_x_y_mismatch', t.replace(hdr + body, hdr + body.rstrip('\n') + ' 9.0\n')))
